@@ -259,6 +259,24 @@ def _replay_turbo(model, rec):
         all_ids = [int(v) for v in slide.shapes._spTree.xpath("//@id") if v.isdecimal()]
         if len(set(all_ids)) != len(all_ids):
             return {"confirmed": True, "witness_class": "turbo-duplicate-id", "detail": "turbo_add_enabled=True; add %s -> ids %s (duplicates in part: %s)" % (list(seq), ids, sorted(all_ids)), "input": list(seq)}
+    # turbo switched on again after ids were handed out through another proxy of the same tree
+    for again in (True, False):
+        slide = native.blank_slide()
+        sh = slide.shapes
+        sh.turbo_add_enabled = True
+        sh.add_shape(1, 0, 0, 10, 10)
+        g = sh.add_group_shape()
+        g.shapes.add_shape(1, 0, 0, 10, 10)
+        g.shapes.add_textbox(0, 0, 10, 10)
+        if not again:
+            sh.turbo_add_enabled = False
+        sh.turbo_add_enabled = True
+        sh.add_shape(1, 0, 0, 10, 10)
+        sh.add_connector(1, 0, 0, 5, 5)
+        all_ids = [int(v) for v in slide.shapes._spTree.xpath("//@id") if v.isdecimal()]
+        if len(set(all_ids)) != len(all_ids):
+            return {"confirmed": True, "witness_class": "turbo-duplicate-id", "detail": "turbo on; additions through a group's shapes; turbo %s; two more additions -> ids in part %s"
+                    % ("switched on again" if again else "off and on again", all_ids)}
     return {"confirmed": False, "detail": "all 125 three-step addition sequences under turbo give distinct ids"}
 
 
@@ -294,12 +312,15 @@ def _next_shape_id_coll(c):
 
 @contract("C06", "C06.shapes.shapetree._BaseShapes.turbo_add_enabled.fset", replay=_replay_turbo)
 def _turbo_setter(c):
-    """switching turbo on establishes TURBO; switching it off clears the cache."""
+    """switching turbo on establishes TURBO whatever the cache held before (it may be stale: ids are also handed out by other proxies of
+    the same tree, e.g. a group's shapes); switching it off clears the cache."""
     from pptx.shapes.shapetree import _BaseShapes
 
     USED, M = _used_state(c)
     spTree = SObj(None, "spTree", max_shape_id=M)
-    shapes = SObj(_BaseShapes, "shapes", _spTree=spTree, _cached_max_shape_id=None)
+    was_on = c.bool("was_on")
+    stale = c.int("stale_cache")
+    shapes = SObj(_BaseShapes, "shapes", _spTree=spTree, _cached_max_shape_id=(stale if c.branch(was_on) else None))
     on = c.bool("value")
     v = True if c.branch(on) else False
     out = c.run(_BaseShapes.turbo_add_enabled.fset, shapes, v)
